@@ -80,8 +80,24 @@ func clearWay(rootGoitPath, path string, trackedBefore map[string]bool) {
 			}
 		}
 	}
-	// an empty directory holds nothing that could be lost
-	os.Remove(filepath.Join(rootDir, path))
+	// a directory that holds nothing but (empty) directories holds nothing that could be lost
+	if dir := filepath.Join(rootDir, path); holdsNoFile(dir) {
+		os.RemoveAll(dir)
+	}
+}
+
+// holdsNoFile reports whether there is nothing but directories beneath dir
+func holdsNoFile(dir string) bool {
+	entries, err := os.ReadDir(dir)
+	if err != nil {
+		return false
+	}
+	for _, entry := range entries {
+		if !entry.IsDir() || !holdsNoFile(filepath.Join(dir, entry.Name())) {
+			return false
+		}
+	}
+	return true
 }
 
 func resetWorkingTree(rootGoitPath string, index *store.Index, trackedBefore map[string]bool) error {
